@@ -51,12 +51,17 @@ def gen_seqs(rng, k, shape):
         else:
             n = rng.range(25, 45) if i == (k - 1) // 2 else rng.below(2); keys = [rng.below(9) for _ in range(n)]   # very unequal
         seqs.append(sorted(keys))
+    # audit: keys were never negative / far from ValueType() = 0; shift whole inputs now and then
+    if rng.below(4) == 0:
+        off = (-20, -100000, 100000)[rng.below(3)]
+        seqs = [[x + off for x in s_] for s_ in seqs]
     return seqs
 
 SHAPES = [0, 0, 1, 2, 3, 3, 4, 5, 6, 7]
 
 def gen_sents(rng, seqs):
-    mx = max([x for s in seqs for x in s] + [0])
+    allk = [x for s in seqs for x in s]
+    mx = max(allk) if allk else 0
     mode = rng.below(3)
     if mode == 0: return [mx + 1] * len(seqs)
     if mode == 1: return [mx + 1 + rng.below(3) for _ in seqs]
@@ -165,6 +170,7 @@ else:
     n_med = 5000 if ck.thorough() else 260
     for t in range(n_med):
         k = KS[rng.below(len(KS))]
+        if t % 13 == 5: k = (33, 64, 65)[rng.below(3)]     # audit: deeper trees than k = 17
         seqs = gen_seqs(rng, k, SHAPES[rng.below(len(SHAPES))])
         total = sum(len(s) for s in seqs)
         sents = gen_sents(rng, seqs)
@@ -419,7 +425,7 @@ ck.finish({
     "distinct_nontrivial": len(distinct),
     "property_verdicts_on_impl": counters["verdicts"],
     "unstable_results_differing_from_c09_backed_model_in_tie_choice_only": counters.get("tie_choice_differs", 0),
-    "rule": "cases = (element type, entry point, algorithm, length, sequences[, sentinels]); small inputs (k in 0..9 and 17, six shapes: tiny alphabet, all equal, one dominant sequence, wide keys, many empty sequences, staircase) are run for EVERY length 0..total, medium inputs for three lengths under all 16 algorithm/entry-point combinations; k = 3, 4 tie patterns (sorted words of length <= 2 over 3 keys) for every length through the stable entry points. Each case runs on /repo's entry point (checking iterators, ASan+UBSan) and on the extracted Coq model; lines are compared (fully for stable entry points, keys + returned position otherwise; the model runs C09's loser-tree model, and the number of unstable results differing from it in the tie choice only is recorded) and the property is decided directly on the implementation's line. non-trivial = k >= 2, at least two non-empty sequences and length > 0; distinct = distinct case text.",
+    "rule": "cases = (element type, entry point, algorithm, length, sequences[, sentinels]); small inputs (k in 0..9 and 17; medium family also k = 33, 64, 65; keys shifted to negative / large values in a quarter of the inputs; six shapes: tiny alphabet, all equal, one dominant sequence, wide keys, many empty sequences, staircase) are run for EVERY length 0..total, medium inputs for three lengths under all 16 algorithm/entry-point combinations; k = 3, 4 tie patterns (sorted words of length <= 2 over 3 keys) for every length through the stable entry points. Each case runs on /repo's entry point (checking iterators, ASan+UBSan) and on the extracted Coq model; lines are compared (fully for stable entry points, keys + returned position otherwise; the model runs C09's loser-tree model, and the number of unstable results differing from it in the tie choice only is recorded) and the property is decided directly on the implementation's line. non-trivial = k >= 2, at least two non-empty sequences and length > 0; distinct = distinct case text.",
     "samples": samples,
     "input_distribution": hist,
     "api_surface": API_SURFACE,
